@@ -129,6 +129,8 @@ VSplit(s, e) ==
       NRows(i) == IF i > Len(P) THEN 0 ELSE Len(P[i].rows) + NRows(i + 1)
       RECURSIVE NJ(_)
       NJ(i) == IF i > Len(P) THEN 0 ELSE Len(P[i].jumps) + NJ(i + 1)
+      RECURSIVE TF(_, _)
+      TF(i, c) == IF i > Len(P) THEN 0 ELSE P[i].tframes[c] + TF(i + 1, c)
       s2 == [s EXCEPT !.parts = P, !.m = e.m]          \* remembered whatever the verdict, for the Rates record that follows
   IN IF Len(P) # e.k THEN <<"split-part-count", s2>>
      ELSE IF Concat([i \in 1..Len(P) |-> P[i].hist]) # wholeHist THEN <<"split-states-concat", s2>>
@@ -140,6 +142,8 @@ VSplit(s, e) ==
      ELSE IF \E i \in 1..Len(P) : SeqToSet(P[i].jumps) # SeqToSet(JumpRows(P[i].rows, A0(s), e.m)) THEN <<"split-part-jumps", s2>>
      ELSE IF \E i \in 1..Len(P) : ~(jback(i) \subseteq wj) THEN <<"split-part-jump-not-in-whole", s2>>
      ELSE IF NJ(1) > Cardinality(wj) THEN <<"split-jump-counts-exceed", s2>>
+     (* the trajectories carried by the parts are frame ranges of the source's: together they hold no more frames than it has *)
+     ELSE IF "tframes" \in DOMAIN e /\ (TF(1, 1) > e.tframes[1] \/ TF(1, 2) > e.tframes[2]) THEN <<"split-part-trajectories-hold-more-frames-than-the-whole", s2>>
      ELSE <<"ok", s2>>
 
 (* rates(k): e.sums[x] = <<la, lb, sum over parts of the per-part count, k*sum(c^2) - (sum c)^2>> *)
